@@ -3,14 +3,14 @@ CONSTANTS
   Bug = ""
   Fix = FALSE
   Sigma = {97}
-  PatLens = {1, 2, 3, 4, 5, 6, 7, 8, 9, 10, 11, 12, 13, 14, 15, 16, 17, 18, 19, 20}
+  PatLens = {1, 2, 3, 4, 5, 6, 7, 8, 9, 10, 11, 12, 13, 14, 15, 16, 17, 18}
   Dg = {0, 5}
   MaxDigits = 2
   WordAlphabet = {97, 98, 65}
   MaxWordLen = 3
   MaxMixedLen = 2
   MaxExcLen = 2
-  CodecWordLens = {2, 18, 21}
+  CodecWordLens = {2, 17, 19}
   NSlices = 1
   Slice = 0
   MaxP = 1
